@@ -3,6 +3,8 @@ import FlVerif.Gen.NormGen
 import FlVerif.Gen.HedgeGen
 import FlVerif.Gen.TermGen
 import FlVerif.Op.Cascade
+import FlVerif.Op.Integral
+import FlVerif.Op.Weighted
 
 /-! # Code-shaped executable model of `Engine.process` for one input row (engine.py:409, rule.py, activation.py,
     term.py Activated/Aggregated, defuzzifier.py, variable.py)
@@ -150,21 +152,16 @@ def isMonotonic : TermD α → Bool
 
 /-! ## fuzzy outputs -/
 
-/-- `Aggregated.grouped_terms()`: first-occurrence order, degrees combined with the aggregation operator
-    (`UnboundedSum` when none), each assignment going through the `nan_to_num` setter -/
-def groupedTerms (agg : Option String) (acts : List (Act α)) : Option (List (TermD α × X α)) :=
-  let aggName := agg.getD "UnboundedSum"
-  match Gen.normByName (α := α) aggName with
-  | none => none
-  | some f =>
-    some (acts.foldl (fun (groups : List (TermD α × X α)) a =>
-      if groups.any (fun g => g.1.name == a.term.name) then
-        groups.map (fun g => if g.1.name == a.term.name then (g.1, X.nanToNum01 (f g.2 a.degree)) else g)
-      else groups ++ [(a.term, X.nanToNum01 a.degree)]) [])
-
-/-- `Aggregated.activation_degree(term)` -/
+/-- `Aggregated.activation_degree(term)`: the degree of the term's group in `Aggregated.grouped_terms()` – the
+    grouping of `Op.Weighted.groupedTerms` (component model of C10: first-occurrence order, degrees combined with the
+    aggregation operator or `UnboundedSum`, every assignment through the `nan_to_num` setter) – or 0 -/
 def activationDegree (agg : Option String) (acts : List (Act α)) (termName : String) : Option (X α) := do
-  let gs ← groupedTerms agg acts
+  let aggF ← match agg with
+    | none => some none
+    | some g => (Gen.normByName (α := α) g).map some
+  let named : List (Op.Weighted.Act String α) :=
+    acts.map (fun a => ({ name := a.term.name, kind := .other, mu := id, tsk := none }, a.degree))
+  let gs := Op.Weighted.groupedTerms aggF named
   pure ((gs.find? (fun g => g.1.name == termName)).map (·.2) |>.getD (.fin 0))
 
 /-! ## antecedents (rule.py:203) -/
@@ -342,76 +339,57 @@ def aggMembership (F : Fn α) (inputs : List (X α)) (agg : Option String) (acts
     let f ← Gen.normByName (α := α) g
     acts.foldlM (fun y a => do pure (f y (← actMembership F inputs a x))) (.fin 0)
 
-/-- `Op.midpoints(lo, hi, r)` -/
-def midpoints (lo hi : X α) (r : Nat) : List (X α) :=
-  (List.range r).map (fun (i : Nat) =>
-    X.add lo (X.mul (X.add (.fin ((i : Nat) : α)) (.fin (1/2))) (X.div (X.sub hi lo) (.fin ((r : Nat) : α)))))
-
-def xsum (l : List (X α)) : X α := l.foldl X.add (.fin 0)
-/-- `np.nansum`-style accumulation used by `nancumsum` -/
-def nanAsZero (v : X α) : X α := if X.isnan v then .fin 0 else v
-def xmaxL : List (X α) → X α
-  | [] => .nan
-  | v :: vs => vs.foldl X.npmax v
-def xminL : List (X α) → X α
-  | [] => .nan
-  | v :: vs => vs.foldl X.npmin v
-/-- `np.nanmean` of the selected points (`nan` when none) -/
-def meanSel (sel : List (X α)) : X α :=
-  if sel.isEmpty then .nan else X.div (xsum sel) (.fin (sel.length : α))
-
-def cumsum : List (X α) → X α → List (X α)
-  | [], _ => []
-  | v :: vs, acc => let s := X.add acc (nanAsZero v); s :: cumsum vs s
-
+/-- the integral defuzzifiers of `Op.Integral` (the component model of C09) by class name; the sampled set is
+    `xs = Op.Integral.midpoints lo hi r`, `ys = aggregated membership at xs` -/
 def integral (kind : String) (xs ys : List (X α)) : Option (X α) :=
   match kind with
-  | "Centroid" => some (X.div (xsum ((xs.zip ys).map (fun p => X.mul p.1 p.2))) (xsum ys))
-  | "Bisector" =>
-    let area := cumsum ys (.fin 0)
-    let total := area.getLastD .nan
-    let dev := area.map (fun a => X.abs (X.sub (X.div a total) (.fin (1/2))))
-    let m := xminL dev
-    some (meanSel (((xs.zip dev).filter (fun p => X.eq p.2 m)).map (·.1)))
-  | "SmallestOfMaximum" | "MeanOfMaximum" | "LargestOfMaximum" =>
-    let m := xmaxL ys
-    let sel := ((xs.zip ys).filter (fun p => X.lt (.fin 0) p.2 && X.eq p.2 m)).map (·.1)
-    if kind == "MeanOfMaximum" then some (meanSel sel)
-    else if sel.isEmpty then some .nan
-    else if kind == "SmallestOfMaximum" then some (xminL sel) else some (xmaxL sel)
+  | "Centroid" => some (Op.Integral.centroid xs ys)
+  | "Bisector" => some (Op.Integral.bisector xs ys)
+  | "SmallestOfMaximum" => some (Op.Integral.som xs ys)
+  | "MeanOfMaximum" => some (Op.Integral.mom xs ys)
+  | "LargestOfMaximum" => some (Op.Integral.lom xs ys)
   | _ => none
 
-/-- `WeightedDefuzzifier.infer_type` on the fuzzy output: `none` = the mixed-types `TypeError` -/
-def inferType (acts : List (Act α)) : Option String :=
-  let kinds := acts.map (fun a => match a.term with
-    | .constant .. | .linear .. => "TakagiSugeno"
-    | t => if isMonotonic t then "Tsukamoto" else "Automatic")
-  match kinds.eraseDups with
-  | [] => some "Automatic"
-  | [k] => some k
-  | _ => none
+/-- a term as the weighted defuzzifiers of `Op.Weighted` (the component model of C10) see it: name, `infer_type`
+    class, membership, Tsukamoto function (absent when the class does not override `Term.tsukamoto`).  A `Linear` term
+    with a wrong number of coefficients makes the whole evaluation raise (`wellFormedTerm`). -/
+def toWTerm (F : Fn α) (inputs : List (X α)) (t : TermD α) : Op.Weighted.WTerm String α :=
+  { name := t.name
+    kind := match t with
+      | .constant .. | .linear .. => .sugeno
+      | t => if isMonotonic t then .monotonic else .other
+    mu := fun w => (membership F inputs t w).getD .nan
+    tsk := match t with
+      | .shape _ cls ps h => if (Gen.termTsukamoto F cls ps h (.fin 0)).isSome then some (fun w => (tsukamoto F t w).getD .nan) else none
+      | _ => none }
 
+def wellFormedTerm (F : Fn α) (inputs : List (X α)) (t : TermD α) : Bool := (membership F inputs t (.fin 0)).isSome
+
+def wtypeOf : String → Option Op.Weighted.WType
+  | "Automatic" => some .automatic | "TakagiSugeno" => some .takagiSugeno | "Tsukamoto" => some .tsukamoto | _ => none
+
+/-- `WeightedAverage / WeightedSum.defuzzify` through `Op.Weighted` -/
 def weighted (F : Fn α) (inputs : List (X α)) (kind type : String) (agg : Option String) (acts : List (Act α)) :
     Option (X α) := do
-  let ty ← if type == "Automatic" then inferType acts else some type
-  let gs ← groupedTerms agg acts
-  let init : X α := if acts.isEmpty then .nan else .fin 0
-  let (ws, w) ← gs.foldlM (fun (acc : X α × X α) (g : TermD α × X α) => do
-    let z ← if ty == "Tsukamoto" then tsukamoto F g.1 g.2 else membership F inputs g.1 g.2
-    -- `np.where(w == 0.0, 0.0, w * z)`: a zero weight contributes zero (also where z is unbounded)
-    pure (X.add acc.1 (if X.eq g.2 (.fin 0) then .fin 0 else X.mul g.2 z), X.add acc.2 g.2)) (init, .fin 0)
-  let y := X.div ws w
-  match kind with
-  | "WeightedAverage" => pure y
-  | "WeightedSum" => pure (X.mul y w)
-  | _ => none
+  let ty ← wtypeOf type
+  let aggF ← match agg with
+    | none => some none
+    | some g => (Gen.normByName (α := α) g).map some
+  let wacts : List (Op.Weighted.Act String α) := acts.map (fun a => (toWTerm F inputs a.term, a.degree))
+  -- a term whose membership raises (Linear with a wrong number of coefficients) raises when it is evaluated
+  let ty' ← (Op.Weighted.resolveType ty wacts).toOption
+  if ty' != .tsukamoto && !(acts.all (fun a => wellFormedTerm F inputs a.term)) then none
+  else match kind with
+    | "WeightedAverage" => (Op.Weighted.weightedAverage ty aggF wacts).toOption
+    | "WeightedSum" => (Op.Weighted.weightedSum ty aggF wacts).toOption
+    | _ => none
 
 /-- the raw defuzzified value of one output variable for the current row -/
 def defuzzRaw (F : Fn α) (inputs : List (X α)) (ov : OutVar α) (acts : List (Act α)) : Option (X α) :=
   match ov.defuzz with
   | .missing => none
   | .integral kind r => do
-    let xs := midpoints ov.lo ov.hi r
+    let xs := Op.Integral.midpoints ov.lo ov.hi r
     let ys ← xs.mapM (aggMembership F inputs ov.aggregation acts)
     integral kind xs ys
   | .weighted kind ty => weighted F inputs kind ty ov.aggregation acts
